@@ -15,6 +15,7 @@
   statement about the general model verbatim.
 -/
 import Rtp.Proofs.Packetizer
+import Rtp.Props.C16
 namespace Rtp.Props.C06
 open Rtp Rtp.Model Rtp.Model.Packetizer Rtp.Pred.C06 Rtp.Proofs.Packetizer Rtp.Spec.AbsSendTimeValue
 
@@ -133,6 +134,34 @@ theorem c06_mtu_call (p : Packetizer) (hv : p.absId = 0 ∨ idValid p.absId = tr
   have := (List.all_eq_true.mp this) q hq
   simp only [fitsMtu, Bool.and_eq_true, decide_eq_true_eq] at this
   exact this.1
+
+/-- **composition with C16** (the hypothesis of `c06_mtu` discharged for a concrete payloader):
+    with the G711/G722 payloader every MTU ≥ 21 gives a train that is lossless (the packets'
+    payloads concatenate to the payload) and MTU-bounded, with or without abs-send-time -/
+theorem c06_g711_train (p : Packetizer) (hv : p.absId = 0 ∨ idValid p.absId = true) (hm : 21 ≤ p.mtu.toNat)
+    (payload : Bytes) (hne : payload.isEmpty = false) (samples : UInt32) (now : Int64) :
+    let pkts := (p.packetize (fun b x => g711Payload b (some x)) payload samples now).2.1
+    (pkts.map (·.payload)).flatten = payload ∧ ∀ q ∈ pkts, q.marshalSize ≤ p.mtu.toNat := by
+  intro pkts
+  have hb : p.budget ≠ 0 := by
+    have := budget_fits p (now := now) (by omega)
+    have h12 : (12 : UInt16) ≤ p.mtu := by
+      simp only [UInt16.le_iff_toNat_le]; have : (12 : UInt16).toNat = 12 := rfl; omega
+    have hb : (p.mtu - 12).toNat = p.mtu.toNat - 12 := by
+      rw [UInt16.toNat_sub_of_le _ _ h12]; rfl
+    have h8 : (8 : UInt16) ≤ p.mtu - 12 := by
+      simp only [UInt16.le_iff_toNat_le, hb]; have : (8 : UInt16).toNat = 8 := rfl; omega
+    have hb8 : (p.mtu - 12 - 8).toNat = p.mtu.toNat - 20 := by
+      rw [UInt16.toNat_sub_of_le _ _ h8, hb]; have : (8 : UInt16).toNat = 8 := rfl; omega
+    intro h0
+    have h0' : p.budget.toNat = 0 := by rw [h0]; rfl
+    simp only [budget] at h0'
+    split at h0' <;> omega
+  obtain ⟨h1, _, h3, _⟩ := Rtp.Props.C16.c16_split_spec p.budget hb payload
+  constructor
+  · show (List.map (·.payload) (p.packetize _ payload samples now).2.1).flatten = payload
+    rw [packetize_eq _ p hv payload hne, mkPkts_payloads]; exact h1
+  · exact c06_mtu_call p hv (by omega) _ payload hne samples now h3
 
 /-! ### non-vacuity: concrete histories inside the domain -/
 
